@@ -35,6 +35,13 @@ def EmitFn.wfb (f : EmitFn) : Bool :=
 def typeIdents (m : MethodOut) : List String :=
   ((m.params ++ m.results).flatMap (fun v => v.refs)).eraseDups
 
+/-- predeclared functions the emitted code calls: a parameter of that name would shadow them -/
+def builtinsUsed : List String := ["len", "panic", "make", "append"]
+
+/-- everything a method's emitted functions use from enclosing scopes: the identifiers of the type
+strings and the predeclared functions -/
+def outerIdents (m : MethodOut) : List String := builtinsUsed ++ typeIdents m
+
 def resultLocals (n : Nat) : List String := (List.range n).map (fun i => "r" ++ toString i)
 /-- `arg0 …` of the typed Run wrapper -/
 def argLocals (n : Nat) : List String := (List.range n).map (fun i => "arg" ++ toString i)
@@ -42,7 +49,7 @@ def argLocals (n : Nat) : List String := (List.range n).map (fun i => "arg" ++ t
 /-- the functions the testify template emits for one method -/
 def testifyFns (m : MethodOut) (retName : String) : List EmitFn :=
   let ps := m.params.map (·.name)
-  let ty := typeIdents m
+  let ty := outerIdents m
   [ ⟨"mock method", ["_mock", "tmpRet", "_va", "_i", "_ca", "returnFunc", "ok"],
       ps ++ retName :: resultLocals m.results.length, "mock" :: ty⟩,
     ⟨"expecter method", ["_e"], ps, []⟩,
@@ -53,7 +60,7 @@ def testifyFns (m : MethodOut) (retName : String) : List EmitFn :=
 /-- the functions (and the record struct) the matryer template emits for one method -/
 def matryerFns (m : MethodOut) : List EmitFn :=
   let ps := m.params.map (·.name)
-  let ty := typeIdents m
+  let ty := outerIdents m
   [ ⟨"mock method", ["mock", "callInfo"], ps ++ m.results.map (·.name), ty⟩,
     ⟨"call record fields", [], ps.map exportedName, []⟩,
     ⟨"Calls", ["mock", "calls"], [], ty⟩ ]
